@@ -92,6 +92,11 @@ def semantic_cases(model, R, func, name, owner_kind):
 
     def pattern_ok(occ):
         rows_ = [r for r in occ if not r[bitalg.OUTSIDE]]
+        # J is the *least* closed set above a | b, and a, b are closed: when one operand contains the other, J is that operand
+        if all(r['b'] <= r['a'] for r in rows_) and any(r['J'] != r['a'] for r in rows_):
+            return False
+        if all(r['a'] <= r['b'] for r in rows_) and any(r['J'] != r['b'] for r in rows_):
+            return False
         if owner_kind == 'Infimum':
             return all(r['a'] == r['Z'] for r in rows_)
         if owner_kind == 'Supremum':
@@ -307,7 +312,7 @@ def aggregate(model, R):
 
 
 def run(model, R):
-    R.floor('BOUNDS', 14)
+    R.floor('BOUNDS', 8)
     R.guard('BOUNDS', None, 'Concept.join/meet', binary, model, R)
     R.guard('BOUNDS', None, 'Lattice.join/meet', aggregate, model, R)
     # both close their argument with the double derivation of the object family (C01's closures are a dependency)
